@@ -40,6 +40,7 @@ type EnvAction struct {
 }
 
 type TraceBlock struct {
+	Tag   string      `json:"tag,omitempty"`
 	GapNs int64       `json:"gap_ns"`
 	Env   []EnvAction `json:"env,omitempty"` // applied before the block's txs
 	Txs   []TraceTx   `json:"txs"`
@@ -92,6 +93,7 @@ type Profile struct {
 	BlockFailureIsViolation bool
 	VaryFees                bool // pay tx fees in any funded denom
 	ExtraOps                func(h *History, g *G) []*Op // profile-specific txs added to every block
+	FinalOps                func(h *History, g *G) []*Op // txs of a closing block (tagged "final" in the trace)
 }
 
 // sameSignerBetween: does any tx in pending[pos:last] share the signer of pending[last]?
@@ -354,7 +356,23 @@ func runHistoryCore(t *rapid.T, p *Profile) (*History, []Violation) {
 		}
 		viol = h.filterKnown(viol)
 	}
-	if len(viol) == 0 && p.Final != nil {
+	if len(viol) == 0 && p.FinalOps != nil && h.W.BlockErr == nil {
+		// closing phase (e.g. C13's drain): profile-generated txs in their own block(s), recorded in the
+		// trace like every other block and tagged so that a replay evaluates the same final oracle
+		g := &G{T: t, H: h, W: h.W, S: h.Cur, Busy: map[string]bool{}}
+		var kinds []string
+		for _, op := range p.FinalOps(h, g) {
+			h.W.SubmitFee(op.Signer, DefaultFee, op.Msg)
+			kinds = append(kinds, op.Kind)
+		}
+		viol = h.step(5*time.Second, nil, kinds)
+		h.Trace.Blocks[len(h.Trace.Blocks)-1].Tag = "final"
+		if len(viol) == 1 && viol[0].Sig == "block-processing-failed" && !p.BlockFailureIsViolation {
+			viol = nil
+		}
+		viol = h.filterKnown(viol)
+	}
+	if len(viol) == 0 && p.Final != nil && h.W.BlockErr == nil {
 		viol = h.filterKnown(p.Final(h))
 	}
 	return h, viol
@@ -553,7 +571,9 @@ func ReplayTraceH(p *Profile, tr *Trace) (*History, []Violation, error) {
 			h.W.SubmitFee(acc, fee, msg)
 			kinds = append(kinds, tx.Kind)
 		}
-		if v := h.step(time.Duration(b.GapNs), b.Env, kinds); len(v) > 0 {
+		v := h.step(time.Duration(b.GapNs), b.Env, kinds)
+		h.Trace.Blocks[len(h.Trace.Blocks)-1].Tag = b.Tag
+		if len(v) > 0 {
 			if len(v) == 1 && v[0].Sig == "block-processing-failed" && !p.BlockFailureIsViolation {
 				return h, nil, nil
 			}
